@@ -3,8 +3,6 @@
 package cl
 
 import (
-	"strings"
-
 	"github.com/ohler55/slip"
 )
 
@@ -58,6 +56,9 @@ func (f *Letx) Call(s *slip.Scope, args slip.List, depth int) (result slip.Objec
 	for _, binding := range bindings {
 		switch tb := binding.(type) {
 		case slip.Symbol:
+			if 0 < len(ns.Vars) {
+				ns = ns.NewScope()
+			}
 			ns.Let(tb, nil)
 		case slip.List:
 			if len(tb) < 1 {
@@ -71,9 +72,10 @@ func (f *Letx) Call(s *slip.Scope, args slip.List, depth int) (result slip.Objec
 			if 1 < len(tb) {
 				value = slip.EvalArg(ns, tb, 1, d2)
 			}
-			if _, has := ns.Vars[strings.ToLower(string(sym))]; has {
-				// A variable bound a second time is a new binding. Closures
-				// made by earlier init forms keep the earlier binding.
+			if 0 < len(ns.Vars) {
+				// Each binding is visible to the init forms after it only.
+				// A closure made by an earlier init form must not see it
+				// so it goes into a scope of its own.
 				ns = ns.NewScope()
 			}
 			ns.Let(sym, value)
